@@ -56,4 +56,3 @@ func writeMain(args []string) {
 	_ = json.NewEncoder(os.Stdout).Encode(out)
 }
 
-func defcacheMain(args []string) { die("defcache: not implemented yet") }
